@@ -38,3 +38,16 @@ func VerifPipesListed(sock mangos.Socket) []uint32 {
 	sort.Slice(ids, func(i, j int) bool { return ids[i] < ids[j] })
 	return ids
 }
+
+// VerifPipeIDSetNext positions the allocator's counter (initialising the allocator if needed).
+func VerifPipeIDSetNext(next uint32) {
+	id := pipeIDs.Get() // forces initialisation
+	pipeIDs.Free(id)
+	pipeIDs.lock.Lock()
+	pipeIDs.next = next
+	pipeIDs.lock.Unlock()
+}
+
+// VerifPipeIDGet / VerifPipeIDFree call the allocator directly.
+func VerifPipeIDGet() uint32    { return pipeIDs.Get() }
+func VerifPipeIDFree(id uint32) { pipeIDs.Free(id) }
